@@ -363,6 +363,7 @@ func (r *run) applyContract(fr *frame, st *State, ct *Contract, sig *types.Signa
 		t := r.specBool(env, rq.Expr, rq.Text)
 		r.oblige(fr.name, kind, reach, t, fmt.Sprintf("%s requires %s", cname, rq.Text), pos)
 	}
+	r.frameCall(fr, st, ct, env, cname, reach, pos)
 	// recursion: the measure decreases and is bounded below
 	if callee != nil && fr.root != nil && callee == fr.root.fn {
 		if ct.Decreases == nil {
@@ -932,4 +933,63 @@ func (r *run) packTypes(n int) []types.Type {
 		}
 	}
 	return out
+}
+
+// frameCall: a function that claims a frame may only call callees whose frames lie inside
+// it: the callee's assigns clause must name objects this activation allocated, or locations
+// the caller's own assigns clause names (DESIGN §8 C03).
+func (r *run) frameCall(fr *frame, st *State, ct *Contract, env *specEnv, cname, reach string, pos token.Pos) {
+	top := fr.root
+	if top == nil {
+		top = fr
+	}
+	if top.contract == nil || !top.contract.AssignsSet || len(ct.Assigns) == 0 {
+		return
+	}
+	for _, a := range top.contract.Assigns {
+		if a == "*" {
+			return
+		}
+	}
+	for _, a := range ct.Assigns {
+		cond := "false"
+		switch {
+		case a == "*":
+		case strings.HasPrefix(a, "map:"):
+			ex, err := ParseSpec(strings.TrimPrefix(a, "map:"))
+			if err != nil {
+				break
+			}
+			mv := env.tr(ex)
+			cond = fmt.Sprintf("(>= %s %s)", mv.Term, r.nxt0)
+			for _, ra := range top.contract.Assigns {
+				if strings.HasPrefix(ra, "map:") {
+					renv := r.newEnv(top, r.entry)
+					renv.ensMode = true
+					if e2, err := ParseSpec(strings.TrimPrefix(ra, "map:")); err == nil {
+						cond = or(cond, fmt.Sprintf("(= %s %s)", mv.Term, r.specTerm(renv, e2).Term))
+					}
+				}
+			}
+		default:
+			parts := strings.Split(a, ".")
+			if len(parts) != 2 {
+				break
+			}
+			pv, ok := env.extra[parts[0]]
+			if !ok {
+				break
+			}
+			cond = fmt.Sprintf("(>= %s %s)", pv.Term, r.nxt0)
+			for _, ra := range top.contract.Assigns {
+				rp := strings.Split(ra, ".")
+				if len(rp) == 2 && rp[1] == parts[1] {
+					if tv, ok := top.params[rp[0]]; ok {
+						cond = or(cond, fmt.Sprintf("(= %s %s)", pv.Term, tv.Term))
+					}
+				}
+			}
+		}
+		r.oblige(fr.name, "frame.call", reach, cond, fmt.Sprintf("call to %s, which assigns %s: outside this activation's fresh objects and the assigns clause", cname, a), pos)
+	}
 }
